@@ -334,15 +334,20 @@ def emit_obligations(ctx):
     fp("emit.range_i", "h_emit_range", {"TYPE_I": None})
     fp("updateMapping.points", "h_updateMapping_points", {})
     if ctx.tier != "quick":
-        fp("emit.default_endpoints_i", "h_emit_default_linear", {"TYPE_I": None}, timeout=1200)
+        # exact end points / linearity at default gain and offset: decided with kissat (cbmc's built-in minisat does
+        # not finish them); measured 110..460 s each on a heavily loaded machine
+        K = dict(solver="kissat")
+        fp("emit.default_endpoints_i", "h_emit_default_linear", {"TYPE_I": None}, timeout=1200, **K)
+        fp("emit.default_endpoints_f", "h_emit_default_linear", {}, timeout=1200, **K)
+        fp("emit.default_endpoints_T", "h_emit_default_linear", {"TYPE_T": None}, timeout=1200, **K)
+        fp("emit.default_linear_i", "h_emit_default_linear", {"TYPE_I": None, "LINEAR_MID": None}, timeout=1800, **K)
         if os.environ.get("C19_FP_HARD"):
-            # not decided by CBMC inside the time box on the development machine (two coupled 24x24 bit multipliers /
-            # a multiply-divide round trip): reported undecided (exit 2) when they time out, never claimed
-            fp("emit.monotone_f", "h_emit_monotone", {}, timeout=3600, solver="kissat")
-            fp("emit.monotone_i", "h_emit_monotone", {"TYPE_I": None}, timeout=3600, solver="kissat")
-            fp("emit.monotone_T", "h_emit_monotone", {"TYPE_T": None}, timeout=3600, solver="kissat")
-            fp("emit.default_linear_f", "h_emit_default_linear", {"LINEAR_MID": None}, timeout=3600, solver="kissat")
-            fp("emit.default_endpoints_T", "h_emit_default_linear", {"TYPE_T": None}, timeout=3600, solver="kissat")
+            # NOT decided by CBMC inside an hour on the development machine (two coupled 24x24 bit multipliers): when they
+            # time out they are reported undecided (exit 2); they are never claimed
+            fp("emit.monotone_f", "h_emit_monotone", {}, timeout=3600, **K)
+            fp("emit.monotone_i", "h_emit_monotone", {"TYPE_I": None}, timeout=3600, **K)
+            fp("emit.monotone_T", "h_emit_monotone", {"TYPE_T": None}, timeout=3600, **K)
+            fp("emit.default_linear_f", "h_emit_default_linear", {"LINEAR_MID": None}, timeout=3600, **K)
     return obls
 
 
@@ -365,6 +370,8 @@ def canaries(ctx):
     can("updateMapping.points", EMIT, "h_updateMapping_points", {})
     if ctx.tier != "quick":
         can("emit.default_endpoints_i", EMIT, "h_emit_default_linear", {"TYPE_I": None})
+        can("emit.default_endpoints_f", EMIT, "h_emit_default_linear", {})
+        can("emit.default_endpoints_T", EMIT, "h_emit_default_linear", {"TYPE_T": None})
     return c
 
 
